@@ -298,12 +298,13 @@ int main(void) {
             for (i = 0; i < n; i++) free(vec[i]);
             free(vec);
 
-        } else if (strcmp(tok[0], "clockf") == 0 && nt == 4) {       /* clockf id sec nsec -> errno value nativeClock */
-            U32 res; I64 v; const char* nm = "none";
+        } else if (strcmp(tok[0], "clockf") == 0 && (nt == 4 || nt == 5)) {   /* clockf id [precision] sec nsec -> errno value hostClock */
+            U32 res; I64 v; const char* nm = "none"; char other[32];
+            U64 precision = nt == 5 ? strtoull(tok[2], NULL, 10) : 1;
             h_clock_fake = 1; h_clock_fail = 0; h_clock_lastid = -1; h_clock_calls = 0;
-            h_clock_sec = strtoll(tok[2], NULL, 10); h_clock_nsec = strtoll(tok[3], NULL, 10);
+            h_clock_sec = strtoll(tok[nt - 2], NULL, 10); h_clock_nsec = strtoll(tok[nt - 1], NULL, 10);
             mem_new(8, 0xAA);
-            res = wasi_snapshot_preview1__clock_time_get(NULL, (U32)strtoul(tok[1], NULL, 10), 1, 0);
+            res = wasi_snapshot_preview1__clock_time_get(NULL, (U32)strtoul(tok[1], NULL, 10), precision, 0);
             memcpy(&v, gmem.data, 8);
             h_clock_fake = 0;
             if (h_clock_calls == 1) switch (h_clock_lastid) {
@@ -311,9 +312,57 @@ int main(void) {
                 case CLOCK_MONOTONIC: nm = "CLOCK_MONOTONIC"; break;
                 case CLOCK_PROCESS_CPUTIME_ID: nm = "CLOCK_PROCESS_CPUTIME_ID"; break;
                 case CLOCK_THREAD_CPUTIME_ID: nm = "CLOCK_THREAD_CPUTIME_ID"; break;
-                default: nm = "other";
-            }
+#ifdef CLOCK_MONOTONIC_COARSE
+                case CLOCK_MONOTONIC_COARSE: nm = "CLOCK_MONOTONIC_COARSE"; break;
+#endif
+#ifdef CLOCK_REALTIME_COARSE
+                case CLOCK_REALTIME_COARSE: nm = "CLOCK_REALTIME_COARSE"; break;
+#endif
+#ifdef CLOCK_MONOTONIC_RAW
+                case CLOCK_MONOTONIC_RAW: nm = "CLOCK_MONOTONIC_RAW"; break;
+#endif
+#ifdef CLOCK_BOOTTIME
+                case CLOCK_BOOTTIME: nm = "CLOCK_BOOTTIME"; break;
+#endif
+                default: snprintf(other, sizeof other, "hostclock#%d", h_clock_lastid); nm = other;
+            } else if (h_clock_calls > 1) nm = "several-host-calls";
             if (res == 0) printf("0 %lld %s\n", (long long)v, nm); else printf("%u - %s\n", res, nm);
+            mem_free();
+
+        } else if (strcmp(tok[0], "clockhist") == 0 && nt == 5) {
+            /* clockhist abi n idlist preclist : n clock_time_get calls cycling through the ids and precisions
+               (comma lists), each bracketed by direct readings of the host clock the SPECIFICATION names for the
+               id (never a tolerance).  -> per call `errno:value:before:after` (ns) */
+            int abi = atoi(tok[1]), n = atoi(tok[2]), i, nid = 0, np = 0;
+            static U32 ids[64]; static U64 precs[64];
+            static const clockid_t native[4] = { CLOCK_REALTIME, CLOCK_MONOTONIC, CLOCK_PROCESS_CPUTIME_ID, CLOCK_THREAD_CPUTIME_ID };
+            char* sv = NULL; char* q;
+            for (q = strtok_r(tok[3], ",", &sv); q && nid < 64; q = strtok_r(NULL, ",", &sv)) ids[nid++] = (U32)strtoul(q, NULL, 10);
+            for (q = strtok_r(tok[4], ",", &sv); q && np < 64; q = strtok_r(NULL, ",", &sv)) precs[np++] = strtoull(q, NULL, 10);
+            if (nid == 0 || np == 0) { printf("err arity\n"); continue; }
+            mem_new(8, 0xAA);
+            for (i = 0; i < n; i++) {
+                U32 id = ids[i % nid], res; U64 pr = precs[i % np]; I64 v = 0;
+                struct timespec t0 = {0, 0}, t1 = {0, 0};
+                if (id < 4) clock_gettime(native[id], &t0);
+                res = abi ? wasi_snapshot_preview1__clock_time_get(NULL, id, pr, 0) : wasi_unstable__clock_time_get(NULL, id, pr, 0);
+                if (id < 4) clock_gettime(native[id], &t1);
+                memcpy(&v, gmem.data, 8);
+                printf("%s%u:%lld:%lld:%lld", i ? " " : "", res, (long long)v,
+                       (long long)t0.tv_sec * 1000000000LL + t0.tv_nsec, (long long)t1.tv_sec * 1000000000LL + t1.tv_nsec);
+            }
+            printf("\n");
+            mem_free();
+
+        } else if (strcmp(tok[0], "clockres") == 0 && nt == 3) {     /* clockres abi id -> errno value hostResolution */
+            int abi = atoi(tok[1]); U32 id = (U32)strtoul(tok[2], NULL, 10), res; I64 v = 0;
+            static const clockid_t native[4] = { CLOCK_REALTIME, CLOCK_MONOTONIC, CLOCK_PROCESS_CPUTIME_ID, CLOCK_THREAD_CPUTIME_ID };
+            struct timespec tr = {0, 0};
+            mem_new(8, 0xAA);
+            res = abi ? wasi_snapshot_preview1__clock_res_get(NULL, id, 0) : wasi_unstable__clock_res_get(NULL, id, 0);
+            memcpy(&v, gmem.data, 8);
+            if (id < 4) clock_getres(native[id], &tr);
+            if (res == 0) printf("0 %lld %lld\n", (long long)v, (long long)tr.tv_sec * 1000000000LL + tr.tv_nsec); else printf("%u -\n", res);
             mem_free();
 
         } else if (strcmp(tok[0], "clockr") == 0 && nt == 2) {       /* real host clock: errno value before after */
